@@ -124,6 +124,13 @@ def classify(fn, facts_list, devfield, size_id, data_id):
             kinds.add('device-hi')
         if f[0] == 'case' and mentions(f[1], hi_mask):
             kinds.add('device-hi')
+        # `dev == 0x7F || (dev & 0xF0) == C`: the broadcast id, or the pinned high nibble
+        if f[0] == 'or' and all(len(a) == 1 and a[0][0] == 'cmp' and a[0][1] == '==' for a in f[1]):
+            lits = [a[0] for a in f[1]]
+            hi = [e for e in lits if mentions(e[2], hi_mask) or mentions(e[3], hi_mask)]
+            rest = [e for e in lits if e not in hi]
+            if hi and all((cmp_norm(e) or (None, None, None))[2] == 0x7F and strip((cmp_norm(e) or (None, {}, None))[1]).get('parm') for e in rest):
+                kinds.add('device-hi')
         if f[0] == 'cmp':
             n = cmp_norm(f)
             if n:
@@ -395,6 +402,17 @@ def analyse(facts, tier):
                             why=('effect not guarded by: ' + ', '.join(sorted(miss))) if miss else 'guards dominate the effect',
                             detail={'guards': sorted(kinds), 'needs': sorted(need), 'under': cases}))
             eff_blocks.setdefault(b, []).append(j)
+            # Roland messages addressed to the broadcast id 7F must reach the effect: every guard that constrains only the device
+            # parameter has to be satisfiable by 0x7F
+            if roland:
+                blocked = None
+                for f in fl:
+                    v = fold_dev(f, 0x7F)
+                    if v is False:
+                        blocked = fact_str(f)
+                obls.append(Obl('C19.R1', h.name, what + ' (broadcast id)', st['loc'], 'finding' if blocked else 'discharged',
+                                why='the guard %s is false for device byte 7F: a message addressed to the broadcast id never takes effect and is reported as rejected' % blocked if blocked else
+                                'every device guard holds for 7F', nontrivial=False))
         # R2: returns
         for b, j, st in h.cfg.returns():
             rv = st['s'].get('e')
@@ -552,4 +570,37 @@ def data_screen(fn, data_id, size_id, call_block):
         for bid, blk in fn.cfg.blocks.items():
             if blk.get('term') == 'ForStmt' and blk.get('cond') is not None and show(blk['cond']) == show(loop.get('cond')) and fn.cfg.block_dominates(bid, call_block):
                 return 'loop at line %s' % loop.get('ln')
+    return None
+
+
+def fold_dev(f, value):
+    """truth of a guard fact when the device parameter has the given value; None when the fact involves anything else"""
+    def ev(e):
+        e = strip(e)
+        if e is None:
+            return None
+        c = const_of(e)
+        if c is not None:
+            return c
+        if e.get('k') == 'DeclRefExpr' and e.get('parm') and short(e.get('n', '')) == 'dev':
+            return value
+        if e.get('k') == 'BinaryOperator' and e.get('op') in ('&', '|', '>>', '<<'):
+            a, b = ev(e['l']), ev(e['r'])
+            if a is None or b is None:
+                return None
+            return {'&': a & b, '|': a | b, '>>': a >> b, '<<': a << b}[e['op']]
+        return None
+    if f[0] == 'cmp':
+        a, b = ev(f[2]), ev(f[3])
+        if a is None or b is None:
+            return None
+        return {'==': a == b, '!=': a != b, '<': a < b, '<=': a <= b, '>': a > b, '>=': a >= b}.get(f[1])
+    if f[0] == 'or':
+        vals = []
+        for alt in f[1]:
+            vs = [fold_dev(l, value) for l in alt]
+            if any(v is None for v in vs):
+                return None
+            vals.append(all(vs))
+        return any(vals)
     return None
